@@ -319,13 +319,18 @@ static void pilot_run(cmb_process_func *f)
     cmb_process_terminate(p); cmb_process_destroy(p); cmb_event_queue_terminate();
 }
 
+static size_t tagoff;               /* where in its element a trial leaves its tag: 0, or 8 when the first member is the trial's own function */
+static unsigned char ran_via[MAXTR]; /* which of the per-trial functions was called for element i (1 or 2) */
+static void trial_func(void *vp);
+static void trial_func_a(void *vp) { unsigned char *p = vp; if (p >= arr && p < arr + stride * ntrials) ran_via[(uint64_t)(p - arr) / stride] |= 1; trial_func(vp); }
+static void trial_func_b(void *vp) { unsigned char *p = vp; if (p >= arr && p < arr + stride * ntrials) ran_via[(uint64_t)(p - arr) / stride] |= 2; trial_func(vp); }
 static void trial_func(void *vp)
 {
     unsigned char *p = vp;
     if (p < arr || p >= arr + stride * ntrials || ((size_t)(p - arr) % stride) != 0) { __atomic_fetch_add(&bad_pointer, 1, __ATOMIC_SEQ_CST); return; }
     uint64_t i = (uint64_t)(p - arr) / stride;
     __atomic_fetch_add(&execcnt[i], 1, __ATOMIC_SEQ_CST);
-    { uint64_t tag = i + 1; memcpy(p, &tag, stride < 8 ? stride : 8); }     /* the element itself is tagged by its own trial */
+    { uint64_t tag = i + 1; memcpy(p + tagoff, &tag, stride < 8 ? stride : 8); }     /* the element itself is tagged by its own trial */
     if (!in_seq) who_ran[i] = pthread_self();
     if (q_mode == 2) { w_trial(i); return; }
     if (q_mode == 3) { e_trial(i); return; }
@@ -359,8 +364,12 @@ void vr_case(uint64_t seed, uint64_t idx, int profile)
     if (profile == 1 && ntrials > 64) ntrials = 33;                 /* TSan build: keep it small */
     stride = sizes[vr_below(&r, 7)];
     big_frames = vr_chance(&r, 1, 4);
+    if (profile == 0 && idx % 16 == 14) ntrials = vr_chance(&r, 1, 2) ? 64 : 200;       /* (the array is allocated further down) */
     err_mode = (profile == 0 && idx % 8 == 6 && ntrials >= 17);
-    if (err_mode) { int ne = 0; for (uint64_t i = 0; i < ntrials; i++) { err_trial[i] = (ne < 5 && i >= 2 && vr_chance(&r, 1, 9)); ne += err_trial[i]; } if (ne) VR_CNT("experiments_with_trials_that_end_their_worker"); VR_ADD("trials_ending_their_worker", ne); }
+    if (err_mode) { int ne = 0; for (uint64_t i = 0; i < ntrials; i++) { err_trial[i] = (ne < 5 && i >= 2 && vr_chance(&r, 1, 9)); ne += err_trial[i]; }
+        /* every other such experiment: more trials give up than there are workers (the first 17 .. 60 % of them, the ones the workers start with) */
+        if (idx % 16 == 14 && ntrials >= 40) { uint64_t k = 17 + vr_below(&r, ntrials * 6 / 10 - 16); ne = 0; for (uint64_t i = 0; i < ntrials; i++) { err_trial[i] = i < k; ne += err_trial[i]; } VR_CNT("experiments_with_more_leavers_than_workers"); }
+        if (ne) VR_CNT("experiments_with_trials_that_end_their_worker"); VR_ADD("trials_ending_their_worker", ne); }
     bool pinned = false; cpu_set_t old_mask;
     if (profile == 0 && idx % 8 == 5) {
         /* the whole program confined to one processor (taskset -c 0, a one-core container): every trial still runs, on however many workers */
@@ -412,7 +421,11 @@ void vr_case(uint64_t seed, uint64_t idx, int profile)
     if (seq_first) { in_seq = 1; for (uint64_t i = 0; i < ntrials; i++) trial_func(arr + i * stride); in_seq = 0; for (uint64_t i = 0; i < ntrials; i++) { memset(arr + i * stride, 0, 8 < stride ? 8 : stride); execcnt[i] = 0; } }
     const bool pilot = profile == 0 && idx % 8 == 1;
     if (pilot) { pilot_bad = 0; pilot_q = cmb_objectqueue_create(); cmb_objectqueue_initialize(pilot_q, "pilot", CMB_UNLIMITED); pilot_run(pilot_put); }
-    cimba_run_experiment(arr, ntrials, stride, trial_func);
+    /* the documented second form: no common function, each element starts with the function for its trial */
+    const bool own_funcs = profile == 0 && idx % 8 == 2 && stride % 8 == 0 && stride >= 24;
+    if (own_funcs) { tagoff = 8; for (uint64_t i = 0; i < ntrials; i++) { cimba_trial_func *f = (tseed[i] & 16) ? trial_func_a : trial_func_b; memcpy(arr + i * stride, &f, sizeof f); ran_via[i] = 0; } VR_CNT("experiments_with_a_function_per_trial"); }
+    cimba_run_experiment(arr, ntrials, stride, own_funcs ? NULL : trial_func);
+    if (own_funcs) for (uint64_t i = 0; i < ntrials && vr_nviol == 0; i++) { unsigned char want = (tseed[i] & 16) ? 1 : 2; if (ran_via[i] != want) vr_violation("C19/wrong-trial-function", "trial %" PRIu64 " of %" PRIu64 " stores function %c as its first member; called: %s", i, ntrials, want == 1 ? 'a' : 'b', ran_via[i] == 0 ? "neither" : ran_via[i] == 3 ? "both" : "the other one"); }
     if (pilot) {
         if (!pilot_bad && cmb_objectqueue_length(pilot_q) != 300) pilot_bad = 3;
         if (!pilot_bad) pilot_run(pilot_get);
@@ -423,7 +436,7 @@ void vr_case(uint64_t seed, uint64_t idx, int profile)
     /* returned: every trial must have been executed exactly once, with its own element */
     if (bad_pointer) vr_violation("C19/foreign-pointer", "trial function was called %d time(s) with a pointer that is not an element of the trial array", bad_pointer);
     for (uint64_t i = 0; i < ntrials && vr_nviol == 0; i++) {
-        uint64_t c = execcnt[i], tag; memcpy(&tag, arr + i * stride, 8);
+        uint64_t c = execcnt[i], tag; memcpy(&tag, arr + i * stride + tagoff, 8);
         if (c == 1 && tag != i + 1) vr_violation("C19/foreign-pointer", "element %" PRIu64 " carries tag %" PRIu64, i, tag);
         if (c != 1) vr_violation(c == 0 ? "C19/trial-not-run" : "C19/trial-run-twice", "after cimba_run_experiment returned, trial %" PRIu64 " of %" PRIu64 " has execution count %" PRIu64, i, ntrials, c);
     }
